@@ -80,8 +80,391 @@ def gen_consts():
     return emit("C30", body)
 
 
+
+# ----------------------------------------------------------------------------- TOC schema
+
+TOC_FILES = ["src/types/manifest.rs", "src/types/frame.rs", "src/types/metadata.rs", "src/types/common.rs",
+             "src/types/ticket.rs", "src/types/binding.rs", "src/types/memories_track.rs", "src/types/logic_mesh.rs",
+             "src/types/sketch_track.rs", "src/toc.rs", "src/clip.rs", "src/replay/types.rs"]
+
+PRIM = {"u8": "uint 1", "u16": "uint 2", "u32": "uint 4", "u64": "uint 8", "usize": "uint 8",
+        "i8": "sint 1", "i16": "sint 2", "i32": "sint 4", "i64": "sint 8", "isize": "sint 8",
+        "bool": "bool", "f32": "raw 4", "f64": "raw 8", "String": "str"}
+# foreign types whose serde impls are known (checked against the vendored crates when the model was written)
+FOREIGN = {"Uuid": "bytesN 16",            # uuid 1.x, !is_human_readable: serialize_bytes(as_bytes()) / visit_bytes(from_slice)
+           "DateTime<Utc>": "strExt 0"}    # chrono 0.4: collect_str(RFC 3339) / deserialize_str + FromStr
+BAD_ATTRS = ["skip_serializing_if", "flatten", "untagged", "tag", "content", "with", "serialize_with", "into", "from",
+             "try_from", "transparent", "skip", "skip_serializing", "skip_deserializing", "other", "bound", "remote", "getter"]
+
+
+def match_brace(src, i, open_c="{", close_c="}"):
+    depth = 0
+    for j in range(i, len(src)):
+        if src[j] == open_c:
+            depth += 1
+        elif src[j] == close_c:
+            depth -= 1
+            if depth == 0:
+                return j
+    raise TranslateError("unbalanced braces")
+
+
+def split_top(body, sep=","):
+    out, depth, cur = [], 0, []
+    for ch in body:
+        if ch in "<([{":
+            depth += 1
+        elif ch in ">)]}":
+            depth -= 1
+        if ch == sep and depth == 0:
+            out.append("".join(cur)); cur = []
+        else:
+            cur.append(ch)
+    if "".join(cur).strip():
+        out.append("".join(cur))
+    return [x.strip() for x in out if x.strip()]
+
+
+def take_attrs(text):
+    """leading #[...] attributes of an item/field -> (list of attr texts, rest)"""
+    attrs = []
+    text = text.strip()
+    while text.startswith("#["):
+        j = match_brace(text, 1, "[", "]")
+        attrs.append(re.sub(r"\s+", " ", text[2:j].strip()))
+        text = text[j + 1:].strip()
+    return attrs, text
+
+
+class Defs:
+    def __init__(self):
+        self.items = {}      # name -> list of dict(kind, file, attrs, body)
+        self.aliases = {}
+        self.src = {}
+        for f in TOC_FILES:
+            src = strip_comments(read(f))
+            self.src[f] = src
+            for m in re.finditer(r"\btype\s+(\w+)\s*=\s*([^;]+);", src):
+                self.aliases[m.group(1)] = m.group(2).strip()
+            for m in re.finditer(r"\b(struct|enum)\s+(\w+)\s*\{", src):
+                kind, name = m.group(1), m.group(2)
+                end = match_brace(src, m.end() - 1)
+                body = src[m.end():end]
+                # attributes: walk backwards over `pub`, attrs
+                pre = src[:m.start()]
+                pre = re.sub(r"(pub(\([a-z]+\))?\s*)$", "", pre.rstrip() + " ").rstrip()
+                attrs = []
+                while pre.endswith("]"):
+                    # find matching '#['
+                    depth, j = 0, len(pre) - 1
+                    while j >= 0:
+                        if pre[j] == "]": depth += 1
+                        elif pre[j] == "[":
+                            depth -= 1
+                            if depth == 0: break
+                        j -= 1
+                    if j < 1 or pre[j - 1] != "#": break
+                    attrs.insert(0, re.sub(r"\s+", " ", pre[j + 1:len(pre) - 1].strip()))
+                    pre = pre[:j - 1].rstrip()
+                self.items.setdefault(name, []).append(dict(kind=kind, file=f, attrs=attrs, body=body, pos=m.start()))
+
+    def find(self, name, file):
+        c = self.items.get(name, [])
+        same = [x for x in c if x["file"] == file]
+        if len(same) == 1: return same[0]
+        if len(c) == 1: return c[0]
+        if not c: raise TranslateError(f"type {name} (used in {file}) not found in {TOC_FILES}")
+        raise TranslateError(f"type {name} is ambiguous: {[x['file'] for x in c]}")
+
+
+def serde_attr_items(attrs):
+    out = []
+    for a in attrs:
+        m = re.fullmatch(r"serde\s*\((.*)\)", a, re.S)
+        if m:
+            out += split_top(m.group(1))
+    return out
+
+
+def check_serde_items(items, where):
+    for it in items:
+        key = re.split(r"\s*=", it)[0].strip()
+        if key in BAD_ATTRS:
+            raise TranslateError(f"unsupported serde attribute `{it}` on {where}: the bincode layout would not be the plain field sequence")
+        if key not in ("default", "rename_all", "rename", "deserialize_with", "alias"):
+            raise TranslateError(f"unknown serde attribute `{it}` on {where}")
+
+
+class SchemaGen:
+    def __init__(self, defs):
+        self.d = defs
+        self.out = {}        # lean def name -> lean term
+        self.order = []
+        self.fields = {}     # type name -> [field names]
+
+    def bound_of(self, fn, file):
+        """LIMIT used by a `deserialize_with` function: a wrapper around deserialize_vec_bounded::<D, T, CONST>
+           or around deserializer.deserialize_map(MapVisitor::<CONST>)"""
+        src = self.d.src[file]
+        m = re.search(r"\bfn\s+" + re.escape(fn) + r"\b", src)
+        if not m: raise TranslateError(f"deserialize_with function {fn} not found in {file}")
+        i = src.find("{", m.end()); j = match_brace(src, i)
+        body = re.sub(r"\s+", "", src[i:j + 1])
+        m1 = re.search(r"deserialize_vec_bounded::<D,(\w+),(\w+)>\(deserializer,?\)", body)
+        if m1 and body.count(";") == 0:
+            return "seq", m1.group(1), const_int(src, m1.group(2))
+        m2 = re.search(r"deserializer\.deserialize_map\(MapVisitor::<(\w+)>\)", body)
+        if m2:
+            for frag in ["whileletSome((key,value))=map.next_entry()?{ifvalues.len()==LIMIT{returnErr(", "values.insert(key,value);"]:
+                if frag not in body: raise TranslateError(f"{fn}: MapVisitor shape changed ({frag})")
+            return "map", None, const_int(src, m2.group(1))
+        raise TranslateError(f"deserialize_with function {fn} in {file} has an unknown shape")
+
+    def ty(self, t, file, field_attrs=None, where=""):
+        t = re.sub(r"\s+", "", t)
+        items = serde_attr_items(field_attrs or [])
+        check_serde_items(items, where)
+        dw = [re.search(r'"(\w+)"', it).group(1) for it in items if it.startswith("deserialize_with")]
+        if dw:
+            kind, elem, limit = self.bound_of(dw[0], file)
+            if kind == "seq":
+                m = re.fullmatch(r"Vec<(.+)>", t)
+                if not m or re.sub(r".*::", "", m.group(1)) != elem:
+                    raise TranslateError(f"{where}: deserialize_with {dw[0]} is for Vec<{elem}> but the field is {t}")
+                return f"(.seq (some {limit}) {self.ty(m.group(1), file, None, where)})"
+            m = re.fullmatch(r"BTreeMap<String,(.+)>", t)
+            if not m: raise TranslateError(f"{where}: bounded map visitor on a non BTreeMap<String,_> field {t}")
+            return f"(.mapStr (some {limit}) {self.ty(m.group(1), file, None, where)})"
+        if t in PRIM: return "." + PRIM[t] if " " not in PRIM[t] else f"(.{PRIM[t]})"
+        if t in FOREIGN: return f"(.{FOREIGN[t]})"
+        m = re.fullmatch(r"\[u8;(\w+)\]", t)
+        if m: return f"(.raw {eval_int(m.group(1))})"
+        m = re.fullmatch(r"Option<(.+)>", t)
+        if m: return f"(.option {self.ty(m.group(1), file, None, where)})"
+        m = re.fullmatch(r"Vec<(.+)>", t)
+        if m: return f"(.seq none {self.ty(m.group(1), file, None, where)})"
+        m = re.fullmatch(r"BTreeMap<String,(.+)>", t)
+        if m: return f"(.mapStr none {self.ty(m.group(1), file, None, where)})"
+        m = re.fullmatch(r"\((.+)\)", t)
+        if m: return "(struct [" + ", ".join(self.ty(x, file, None, where) for x in split_top(m.group(1))) + "])"
+        if re.fullmatch(r"[\w:]+", t):
+            name = t.split("::")[-1]
+            if name in self.d.aliases: return self.ty(self.d.aliases[name], file, None, where)
+            return self.named(name, file)
+        raise TranslateError(f"{where}: unsupported type {t}")
+
+    def derives(self, item):
+        out = []
+        for a in item["attrs"]:
+            m = re.fullmatch(r"derive\s*\((.*)\)", a, re.S)
+            if m: out += [x.strip().split("::")[-1] for x in m.group(1).split(",")]
+        return out
+
+    def parse_fields(self, body, where):
+        fs = []
+        for f in split_top(body):
+            attrs, rest = take_attrs(f)
+            if any(a.startswith("cfg") for a in attrs):
+                raise TranslateError(f"{where}: cfg-dependent field `{rest}` in a serialized struct")
+            m = re.fullmatch(r"(?:pub(?:\([a-z]+\))?\s+)?(\w+)\s*:\s*(.+)", rest, re.S)
+            if not m: raise TranslateError(f"{where}: cannot parse field `{rest}`")
+            fs.append((m.group(1), m.group(2), attrs))
+        return fs
+
+    def named(self, name, file):
+        lean = "s_" + name
+        if lean in self.out: return lean
+        item = self.d.find(name, file)
+        f = item["file"]
+        check_serde_items(serde_attr_items(item["attrs"]), f"type {name}")
+        der = self.derives(item)
+        if item["kind"] == "enum":
+            if name == "CanonicalEncoding":
+                term = self.canonical_encoding(item)
+            else:
+                if "Serialize" not in der or "Deserialize" not in der:
+                    raise TranslateError(f"enum {name} has a hand-written serde impl the translator does not know")
+                vs = split_top(item["body"])
+                for v in vs:
+                    attrs, rest = take_attrs(v)
+                    check_serde_items(serde_attr_items(attrs), f"{name}::{rest}")
+                    if not re.fullmatch(r"\w+(\s*=\s*[\w\d]+)?", rest):
+                        raise TranslateError(f"enum {name}: variant `{rest}` carries data (only unit variants are modelled)")
+                term = f".enumUnit {len(vs)}"
+                self.fields[name] = [take_attrs(v)[1].split("=")[0].strip() for v in vs]
+        else:
+            if "Serialize" in der and "Deserialize" in der:
+                fs = self.parse_fields(item["body"], name)
+                term = "struct [" + ", ".join(self.ty(t, f, a, f"{name}.{n}") for n, t, a in fs) + "]"
+                self.fields[name] = [n for n, _, _ in fs]
+            elif "Serialize" not in der and "Deserialize" not in der:
+                term = self.manual_struct(name, item)
+            else:
+                raise TranslateError(f"struct {name}: mixed derived/hand-written serde impls")
+        self.out[lean] = term
+        self.order.append(lean)
+        return lean
+
+    def impl_body(self, src, header_re, name):
+        m = re.search(header_re, src)
+        if not m: raise TranslateError(f"{name}: impl not found ({header_re})")
+        i = src.find("{", m.end() - 1); j = match_brace(src, i)
+        return src[i:j + 1]
+
+    def manual_struct(self, name, item):
+        """hand-written `impl Serialize` (serialize_struct + serialize_field…) and `impl Deserialize`
+           (derive on a local `Repr`): field names/order must agree, types come from `Repr`"""
+        src = self.d.src[item["file"]]
+        ser = self.impl_body(src, r"impl\s+Serialize\s+for\s+" + name + r"\s*\{", name)
+        de = self.impl_body(src, r"impl\s*<'de>\s*Deserialize<'de>\s+for\s+" + name + r"\s*\{", name)
+        m = re.search(r'serialize_struct\(\s*"' + name + r'"\s*,\s*(\d+)\s*\)', ser)
+        if not m: raise TranslateError(f"{name}: serialize_struct call not found")
+        declared = int(m.group(1))
+        ser_fields = re.findall(r'serialize_field\(\s*"(\w+)"\s*,\s*&self\.([\w.]+)\s*\)', ser)
+        if len(ser_fields) != declared or ser.count("serialize_field") != declared:
+            raise TranslateError(f"{name}: serialize_struct declares {declared} fields, {len(ser_fields)} serialize_field calls found")
+        m = re.search(r"#\[derive\(Deserialize\)\]\s*struct\s+Repr\s*\{", de)
+        if not m: raise TranslateError(f"{name}: Deserialize impl does not go through a derived `Repr`")
+        j = match_brace(de, m.end() - 1)
+        rfs = self.parse_fields(de[m.end():j], name + "::Repr")
+        if [n for n, _, _ in rfs] != [n for n, _ in ser_fields]:
+            raise TranslateError(f"{name}: Serialize writes {[n for n, _ in ser_fields]} but Deserialize reads {[n for n, _, _ in rfs]}")
+        if "Repr::deserialize(deserializer)?" not in re.sub(r"\s+", "", de):
+            raise TranslateError(f"{name}: Deserialize impl shape changed")
+        # the value written for field n is self.<path>; the value read back is stored at the same path
+        own = dict((n, t) for n, t, _ in self.parse_fields(item["body"], name))
+        for (n, path), (_, t, _) in zip(ser_fields, rfs):
+            head = path.split(".")[0]
+            if head not in own: raise TranslateError(f"{name}: serialize_field(\"{n}\") reads unknown member {path}")
+        self.fields[name] = [n for n, _ in ser_fields]
+        return "struct [" + ", ".join(self.ty(t, item["file"], a, f"{name}::Repr.{n}") for n, t, a in rfs) + "]"
+
+    def canonical_encoding(self, item):
+        src = re.sub(r"\s+", "", self.d.src[item["file"]])
+        for frag in ["serializer.serialize_u32(u32::from(self.as_byte()))",
+                     "letvalue=u32::deserialize(deserializer)?;Ok(CanonicalEncoding::from_byte((value&0xFF)asu8))",
+                     "matchvalue{0=>CanonicalEncoding::Plain,1=>CanonicalEncoding::Zstd,_=>CanonicalEncoding::Plain,}",
+                     "matchself{CanonicalEncoding::Plain=>0,CanonicalEncoding::Zstd=>1,}"]:
+            if frag not in src:
+                raise TranslateError(f"CanonicalEncoding: hand-written serde impl changed shape ({frag})")
+        return ".cenc"
+
+
+def zero_value(term, gen):
+    """Lean `Value` term of the all-default value of a schema term (derive(Default) on ints/Vec/Option)"""
+    t = term.strip()
+    if t.startswith("(") and t.endswith(")"): t = t[1:-1].strip()
+    if t.startswith("s_"): return zero_value(gen.out[t], gen)
+    if t.startswith(".uint") or t.startswith(".enumUnit") or t == ".cenc": return "(.nat 0)"
+    if t.startswith(".sint"): return "(.int 0)"
+    if t == ".bool": return "(.bool false)"
+    if t.startswith(".option"): return ".none"
+    if t.startswith(".seq") or t.startswith(".mapStr"): return ".unit"
+    if t == ".str": return "(.bytes [])"
+    if t.startswith("struct ["):
+        inner = split_top(t[len("struct ["):-1])
+        return "(Value.ofList [" + ", ".join(zero_value(x, gen) for x in inner) + "])"
+    raise TranslateError(f"no default value for schema {term}")
+
+
+def struct_literal(src, type_name, after_re):
+    """fields of the first `TypeName { a: expr, … }` literal after the regex `after_re`"""
+    m = re.search(after_re, src)
+    if not m: raise TranslateError(f"anchor {after_re} not found")
+    m2 = re.compile(r"\b" + type_name + r"\s*\{").search(src, m.end())
+    if not m2: raise TranslateError(f"struct literal {type_name} not found after {after_re}")
+    j = match_brace(src, m2.end() - 1)
+    out = []
+    for f in split_top(src[m2.end():j]):
+        a, b = f.split(":", 1)
+        out.append((a.strip(), re.sub(r"\s+", "", b)))
+    return out
+
+
+def gen_schema():
+    d = Defs()
+    g = SchemaGen(d)
+    toc = g.named("Toc", "src/types/manifest.rs")
+    v2 = g.named("LegacyTocV2", "src/toc.rs")
+    v1 = g.named("LegacyTocV1", "src/toc.rs")
+    tf, f2, f1 = g.fields["Toc"], g.fields["LegacyTocV2"], g.fields["LegacyTocV1"]
+    tsrc = d.src["src/toc.rs"]
+    toc_item = d.find("Toc", "src/types/manifest.rs")
+    toc_field_terms = dict((n, g.ty(t, toc_item["file"], a, f"Toc.{n}")) for n, t, a in g.parse_fields(toc_item["body"], "Toc"))
+    lines = []
+    for name in g.order:
+        lines.append(f"def {name} : Schema := {g.out[name]}")
+    lines.append("")
+    lines.append(f"def tocSchema : Schema := {toc}")
+    lines.append(f"def tocV2Schema : Schema := {v2}")
+    lines.append(f"def tocV1Schema : Schema := {v1}")
+    lines.append(f"def tocFields : List String := {lean_str_list(tf)}")
+    lines.append(f"def tocV2Fields : List String := {lean_str_list(f2)}")
+    lines.append(f"def tocV1Fields : List String := {lean_str_list(f1)}")
+    # From<Legacy…> for Toc: per Toc field, index into the legacy struct or a default value
+    def from_map(legacy, lf):
+        lit = struct_literal(tsrc, "Toc", r"impl\s+From<" + legacy + r">\s+for\s+Toc")
+        if [a for a, _ in lit] != tf: raise TranslateError(f"From<{legacy}>: literal fields {[a for a, _ in lit]} != Toc fields")
+        items = []
+        for a, e in lit:
+            m = re.fullmatch(r"legacy\.(\w+)", e)
+            if m:
+                if m.group(1) != a: raise TranslateError(f"From<{legacy}>: {a} is filled from {e}")
+                items.append(f"(.inl {lf.index(a)})")
+            elif e == "None":
+                if not toc_field_terms[a].startswith("(.option"): raise TranslateError(f"From<{legacy}>: None for non-Option {a}")
+                items.append("(.inr .none)")
+            elif e == "Default::default()":
+                sub = toc_field_terms[a]
+                nm = sub[2:] if sub.startswith("s_") else None
+                it = d.find(sub[2:], "src/types/manifest.rs") if sub.startswith("s_") else None
+                if it is None or "Default" not in g.derives(it): raise TranslateError(f"From<{legacy}>: {a} uses Default::default() of a type without derive(Default)")
+                items.append(f"(.inr {zero_value(sub, g)})")
+            else:
+                raise TranslateError(f"From<{legacy}>: unsupported initialiser {a}: {e}")
+        return "[" + ", ".join(items) + "]"
+    lines.append(f"def fromV2 : List (Nat ⊕ Value) := {from_map('LegacyTocV2', f2)}")
+    lines.append(f"def fromV1 : List (Nat ⊕ Value) := {from_map('LegacyTocV1', f1)}")
+    # verify_checksum: the legacy re-encodings (projection of Toc fields, checksum zeroed) and their guards
+    vsrc = tsrc[re.search(r"pub\s+fn\s+verify_checksum", tsrc).start():]
+    vflat = re.sub(r"\s+", "", vsrc)
+    for frag in ["letmutclone=self.clone();clone.toc_checksum=[0u8;32];letbytes=clone.encode()?;letdigest=Self::calculate_checksum(&bytes);ifdigest==self.toc_checksum{returnOk(());}",
+                 "ifself.replay_manifest.is_none(){letlegacy_v2=LegacyTocV2{",
+                 "ifself.memories_track.is_none()&&self.replay_manifest.is_none(){letlegacy_v1=LegacyTocV1{",
+                 "ifv2_digest==self.toc_checksum{", "ifv1_digest==self.toc_checksum{",
+                 "Err(MemvidError::ChecksumMismatch{context:\"toc\"})"]:
+        if frag not in vflat: raise TranslateError(f"verify_checksum changed shape: {frag}")
+    def proj(legacy, lf):
+        lit = struct_literal(vsrc, legacy, r"let\s+legacy_v" + legacy[-1] + r"\s*=")
+        if [a for a, _ in lit] != lf: raise TranslateError(f"verify_checksum: {legacy} literal fields differ from the struct")
+        items = []
+        for a, e in lit:
+            if e in (f"self.{a}.clone()", f"self.{a}"):
+                items.append(f"(.inl {tf.index(a)})")
+            elif e == "[0u8;32]" and a == "toc_checksum":
+                items.append("(.inr (.bytes (Mv.zeros 32)))")
+            else:
+                raise TranslateError(f"verify_checksum: unsupported initialiser {legacy}.{a}: {e}")
+        return "[" + ", ".join(items) + "]"
+    lines.append(f"def toV2 : List (Nat ⊕ Value) := {proj('LegacyTocV2', f2)}")
+    lines.append(f"def toV1 : List (Nat ⊕ Value) := {proj('LegacyTocV1', f1)}")
+    lines.append(f"def v2Guard : List Nat := [{tf.index('replay_manifest')}]")
+    lines.append(f"def v1Guard : List Nat := [{tf.index('memories_track')}, {tf.index('replay_manifest')}]")
+    lines.append(f"def checksumIndex : Nat := {tf.index('toc_checksum')}")
+    # Toc::decode / canonical_config shape
+    dflat = re.sub(r"\s+", "", tsrc)
+    for frag in ["bincode::config::standard().with_fixed_int_encoding().with_little_endian().with_limit::<{crate::MAX_INDEX_BYTESasusize}>()",
+                 "ifletOk((toc,bytes_read))=decode_from_slice::<Toc,_>(bytes,canonical_config()){ifbytes_read!=bytes.len(){returnErr(MemvidError::InvalidToc{reason:\"unexpectedtrailingbytes\".into(),});}returnOk(toc);}",
+                 "ifletOk((legacy,bytes_read))=decode_from_slice::<LegacyTocV2,_>(bytes,canonical_config()){ifbytes_read!=bytes.len(){returnErr(",
+                 "matchdecode_from_slice::<LegacyTocV1,_>(bytes,canonical_config()){Ok((legacy,bytes_read))=>{ifbytes_read!=bytes.len(){returnErr("]:
+        if frag not in dflat: raise TranslateError(f"Toc::decode / canonical_config changed shape: {frag}")
+    body = "open Mv.Bincode\n\n" + "\n".join(lines) + "\n"
+    return emit("C30Toc", body, header="import MvModel.Bincode\n")
+
+
 def run():
     changed = gen_consts()
+    changed = gen_schema() or changed
     return changed
 
 main(run)
